@@ -745,13 +745,25 @@ func isLittleEndian(info *types.Info, call *ast.CallExpr) bool {
 // provX25519Basepoint: Basepoint has no initialiser and is assigned
 // basePoint[:] exactly once, in init.
 func provX25519Basepoint(c *checker, d *def, l *Lit, pos token.Pos) {
-	if l == nil || l.Kind != KZero {
-		c.provFail(d, pos, "has a package-level initialiser")
-		return
-	}
 	pk := c.p.Pkg("primitives/x25519")
 	info := pk.TypesInfo
 	good, bad := 0, 0
+	if l != nil && l.Kind != KZero {
+		// the same binding written as a variable initialiser: var Basepoint = basePoint[:]
+		okInit := false
+		if l.Expr != nil {
+			if sl, ok := ast.Unparen(l.Expr).(*ast.SliceExpr); ok && sl.Low == nil && sl.High == nil {
+				if id, ok := ast.Unparen(sl.X).(*ast.Ident); ok && isPkgVar(info.Uses[id], "primitives/x25519.basePoint") {
+					okInit = true
+				}
+			}
+		}
+		if !okInit {
+			c.provFail(d, pos, "has a package-level initialiser other than basePoint[:]")
+			return
+		}
+		good++
+	}
 	for _, f := range pk.Syntax {
 		ast.Inspect(f, func(n ast.Node) bool {
 			as, ok := n.(*ast.AssignStmt)
